@@ -38,6 +38,9 @@ type NodeConfig struct {
 	// onchain helpers; "cln" = the real clightning.ClightningClient wallet methods over a fake lightningd / bitcoind.
 	BtcAdapter string
 	CLNVersion string // version reported by the fake lightningd ("" = v24.08)
+	// BtcNetworkName, if set, is what the Bitcoin wallet reports as its network (bitcoind's "chain": mainnet,
+	// testnet3, testnet4, signet, regtest); transactions are built with the simulator's parameters all the same.
+	BtcNetworkName string
 }
 
 // DefaultNodeConfig is a permissive two-chain configuration.
